@@ -8,8 +8,9 @@ and the task goes on (`except Exception` does not catch it).  `finally` blocks r
 
   * `outs sk`            : the ways a skeleton can end (sound over-approximation of `Run`: `outs_sound`, Proofs/Cancel.lean)
   * `handlers h`         : the handlers of a `try`, in source order, as the translator lays them out
+  * `Thrown c p sk o`    : the same for any kind of exception (`c` = which handler types catch it, `p` = which awaits can raise it);
   * `Cancelled sk o`     : "a cancellation delivered at one of the awaits of `sk` makes `sk` end with `o`" - `o = .exc` means the
-                           cancellation propagated; any other outcome means it was swallowed and execution continued normally
+                           cancellation propagated; `.fall` that it was swallowed and execution continued
   * `cancelOuts sk`      : executable analysis of `Cancelled` (`cancelOuts_sound`)
   * `neverSwallowsCancel`: every cancellation ends the coroutine by the exception
 
@@ -48,8 +49,14 @@ def catchesCancel (n : String) : Bool :=
   n == "" || n == "BaseException" || n == "asyncio.CancelledError" || n == "CancelledError" ||
   n == "asyncio.exceptions.CancelledError"
 
+/-- does `except <n>` catch an ordinary exception (a subclass of `Exception`) whatever its class? -/
+def catchesAny (n : String) : Bool := n == "" || n == "BaseException" || n == "Exception"
+
+/-- the body of the first handler (source order) whose type satisfies `catches` -/
+def firstHandler (catches : String → Bool) (h : Sk) : Option Sk := ((handlers h).find? fun p => catches p.1).map (·.2)
+
 /-- the body of the handler that gets a `CancelledError` raised inside the `try` -/
-def firstCancelHandler (h : Sk) : Option Sk := ((handlers h).find? fun p => catchesCancel p.1).map (·.2)
+abbrev firstCancelHandler (h : Sk) : Option Sk := firstHandler catchesCancel h
 
 /-- what a loop makes of the way its body ended -/
 def loopOut : Out → Out
@@ -57,48 +64,58 @@ def loopOut : Out → Out
   | .ret => .ret
   | _ => .fall
 
-/-- a cancellation delivered at one of the awaits of the skeleton makes it end with `o` -/
-inductive Cancelled : Sk → Out → Prop
-  | aw (n : String) : Cancelled (.ev (.aw n)) .exc
-  | seqL {a b o} : Cancelled a o → o ≠ .fall → Cancelled (.seq a b) o
-  | seqLgo {a b t o} : Cancelled a .fall → Run b t o → Cancelled (.seq a b) o          -- swallowed in `a`: `b` runs
-  | seqR {a b t o} : Run a t .fall → Cancelled b o → Cancelled (.seq a b) o
-  | altL {a b o} : Cancelled a o → Cancelled (.alt a b) o
-  | altR {a b o} : Cancelled b o → Cancelled (.alt a b) o
-  | loopNow {body o} : Cancelled body o → Cancelled (.loop body) (loopOut o)           -- swallowed in the body: the loop goes on
-  | loopLater {body t o o'} : Run body t o' → (o' = .fall ∨ o' = .cont) → Cancelled (.loop body) o → Cancelled (.loop body) o
-  | finBody {body f t o} : Cancelled body o → Run f t .fall → Cancelled (.fin body f) o
-  | finBodyStop {body f t o o'} : Cancelled body o → Run f t o' → o' ≠ .fall → Cancelled (.fin body f) o'
-  | finIn {body f t o o'} : Run body t o → Cancelled f o' → Cancelled (.fin body f) (if o' = .fall then o else o')
-  | tryPass {body h o} : Cancelled body o → o ≠ .exc → Cancelled (.tryExc body h) o
-  | tryCaught {body h hb t o} : Cancelled body .exc → firstCancelHandler h = some hb → Run hb t o → Cancelled (.tryExc body h) o
-  | tryThrough {body h} : Cancelled body .exc → firstCancelHandler h = none → Cancelled (.tryExc body h) .exc
-  | tryInHandler {body h t o} : Run body t .exc → Cancelled h o → Cancelled (.tryExc body h) o
+/-- an exception of a kind caught by the handlers `catches`, raised at one of the events satisfying `point` (an await, or a synchronous call that runs foreign code), makes the skeleton end
+with `o`: `.exc` = it propagated out; `.fall` = a handler swallowed it and execution goes on somewhere inside (what the code does
+afterwards is not followed); `.ret` / `.brk` / `.cont` = a handler or a `finally` block ended the construct by a jump -/
+inductive Thrown (catches : String → Bool) (point : Ev → Bool) : Sk → Out → Prop
+  | at (e : Ev) : point e = true → Thrown catches point (.ev e) .exc
+  | seqL {a b o} : Thrown catches point a o → Thrown catches point (.seq a b) o      -- (`o = .fall`: swallowed inside `a`; what `b` does then is not the exception's doing)
+  | seqR {a b t o} : Run a t .fall → Thrown catches point b o → Thrown catches point (.seq a b) o
+  | altL {a b o} : Thrown catches point a o → Thrown catches point (.alt a b) o
+  | altR {a b o} : Thrown catches point b o → Thrown catches point (.alt a b) o
+  | loopNow {body o} : Thrown catches point body o → Thrown catches point (.loop body) (loopOut o)
+  | loopLater {body t o o'} : Run body t o' → (o' = .fall ∨ o' = .cont) → Thrown catches point (.loop body) o →
+      Thrown catches point (.loop body) o
+  | finBody {body f t o} : Thrown catches point body o → Run f t .fall → Thrown catches point (.fin body f) o
+  | finBodyStop {body f t o o'} : Thrown catches point body o → Run f t o' → o' ≠ .fall → Thrown catches point (.fin body f) o'
+  | finIn {body f t o o'} : Run body t o → Thrown catches point f o' → Thrown catches point (.fin body f) (if o' = .fall then o else o')
+  | tryPass {body h o} : Thrown catches point body o → o ≠ .exc → Thrown catches point (.tryExc body h) o
+  | tryCaught {body h hb t o} : Thrown catches point body .exc → firstHandler catches h = some hb → Run hb t o →
+      Thrown catches point (.tryExc body h) o
+  | tryThrough {body h} : Thrown catches point body .exc → firstHandler catches h = none → Thrown catches point (.tryExc body h) .exc
+  | tryInHandler {body h t o} : Run body t .exc → Thrown catches point h o → Thrown catches point (.tryExc body h) o
 
-/-- executable analysis of `Cancelled` -/
-def cancelOuts : Sk → List Out
-  | .ev (.aw _) => [.exc]
-  | .ev (.act _) => []
+/-- a cancellation delivered at one of the awaits of the skeleton makes it end with `o` -/
+abbrev Cancelled : Sk → Out → Prop := Thrown catchesCancel Ev.isAw
+
+/-- executable analysis of `Thrown` -/
+def thrownOuts (catches : String → Bool) (point : Ev → Bool) : Sk → List Out
+  | .ev e => if point e then [.exc] else []
   | .skip => []
   | .exit => []
   | .brk => []
   | .cont => []
   | .raise => []
   | .seq a b =>
-      (cancelOuts a).filter (· != .fall) ++ (if (cancelOuts a).contains .fall then outs b else []) ++
-      (if (outs a).contains .fall then cancelOuts b else [])
-  | .alt a b => cancelOuts a ++ cancelOuts b
-  | .loop b => (cancelOuts b).map loopOut
+      thrownOuts catches point a ++ (if (outs a).contains .fall then thrownOuts catches point b else [])
+  | .alt a b => thrownOuts catches point a ++ thrownOuts catches point b
+  | .loop b => (thrownOuts catches point b).map loopOut
   | .fin a f =>
-      (if (outs f).contains .fall then cancelOuts a else []) ++
-      (if (cancelOuts a).isEmpty then [] else (outs f).filter (· != .fall)) ++
-      ((cancelOuts f).filter (· != .fall) ++ (if (cancelOuts f).contains .fall then outs a else []))
+      (if (outs f).contains .fall then thrownOuts catches point a else []) ++
+      (if (thrownOuts catches point a).isEmpty then [] else (outs f).filter (· != .fall)) ++
+      ((thrownOuts catches point f).filter (· != .fall) ++ (if (thrownOuts catches point f).contains .fall then outs a else []))
   | .tryExc a h =>
-      (cancelOuts a).filter (· != .exc) ++
-      (if (cancelOuts a).contains .exc then (match firstCancelHandler h with | some hb => outs hb | none => [.exc]) else []) ++
-      (if (outs a).contains .exc then cancelOuts h else [])
+      (thrownOuts catches point a).filter (· != .exc) ++
+      (if (thrownOuts catches point a).contains .exc then (match firstHandler catches h with | some hb => outs hb | none => [.exc]) else []) ++
+      (if (outs a).contains .exc then thrownOuts catches point h else [])
+
+abbrev cancelOuts : Sk → List Out := thrownOuts catchesCancel Ev.isAw
 
 /-- however and wherever the coroutine is cancelled, it ends by the exception: nothing swallows the cancellation -/
 def neverSwallowsCancel (sk : Sk) : Bool := (cancelOuts sk).all (· == .exc)
+
+/-- an ordinary exception raised at any of the events satisfying `point` never ends the skeleton: some handler swallows it and the
+code goes on (what keeps a supervising loop alive) -/
+def survivesEveryException (point : Ev → Bool) (sk : Sk) : Bool := (thrownOuts catchesAny point sk).all (· != .exc)
 
 end GeckoModel.Coop
